@@ -136,7 +136,7 @@ PROPS["C08"] = {
     "rule": "program family: CONFIGURATION with 2 periodic tasks + 1 background program, PROGRAM -> FB -> FUNCTION -> FUNCTION, 9 statement sites; fault = "
             "(site x {div0, overflow, index, null deref, FOR step 0}) | driver read/write error at driver 0..2 | watchdog_timeout() | simulation_fault(); "
             "x fault cycle {0,1,4} x policy {halt, safe_halt, restart} x watchdog action x 6 safe-state maps (bit/byte/word/dword/lword, overlapping "
-            "bound outputs, empty) x {no second failing writer, driver 0/1/2 write also failing}. distinct = the fault point tuple; non-trivial = the "
+            "bound outputs, empty) x {no second failing writer, driver 0/1/2 write also failing} + the same fault points after a warm / cold restart of the healthy resource (configuration must survive a restart). distinct = the fault point tuple; non-trivial = the "
             "fault actually fired (cycle returned the expected error kind and last_fault is set)",
     "level_text": "For each fault point the real runtime is driven to the fault and monitors check: the error is reported, faulted() latches, three later "
                   "cycles return ResourceFaulted with zero executed statements (hook H1), no variable (storage walk) or output byte changes; when safe state "
